@@ -528,7 +528,7 @@ def gen_beyond_module(rng, idx):
 
 
 def generate(ctx):
-    n = ctx.n(12, 400)
+    n = ctx.n(12, 250)
     cases = [gen_module(ctx.rng, i, (16, 4, 14, 3, 3, 2)) for i in range(n)]
     cases += [gen_category_module(ctx.rng, n + i) for i in range(ctx.n(3, 40))]
     cases += [gen_beyond_module(ctx.rng, n + 100 + i) for i in range(ctx.n(2, 30))]
